@@ -205,7 +205,8 @@ func Decorate(t *rapid.T, g *Grammar, o DecorateOpts) map[string]bool {
 }
 
 // AddChain appends k extra rules X0..X(k-1), all reachable: the first rule gets "X0?" and
-// Xi <- 'x' X(i+1)? (one in forty is a choice so that -switch has work to do; its analysis walks all code points per alternative and is slow).
+// Xi <- 'x' X(i+1)? (one in forty is a choice so that -switch has work to do; its analysis walks all code points per alternative and is slow;
+// one in forty references its successor twice, which bounds how deep -inline can nest the chain).
 func AddChain(g *Grammar, k int) {
 	if k <= 0 {
 		return
@@ -220,9 +221,73 @@ func AddChain(g *Grammar, k int) {
 			body = Lit("x")
 		case i%40 == 7:
 			body = &Expr{K: KAlt, Kids: []*Expr{Seq(Lit("x"), Un(KOpt, Ref(next))), Lit("y"), Lit("z")}}
+		case i%40 == 27:
+			// referenced twice: -inline expands only rules used once, and a chain of tens of
+			// thousands of them would nest deeper than go/parser accepts (100 000 levels)
+			body = Seq(Lit("x"), Un(KOpt, Ref(next)), Un(KOpt, Ref(next)))
 		default:
 			body = Seq(Lit("x"), Un(KOpt, Ref(next)))
 		}
 		g.Rules = append(g.Rules, &Rule{Name: fmt.Sprintf("X%d", i), Body: body})
 	}
+}
+
+// InsertRule puts rule r at index idx (>= 1) and renumbers the references.
+func InsertRule(g *Grammar, idx int, r *Rule) {
+	shift := func(e *Expr) {
+		if e.K == KRef && e.Name == "" && e.Rule >= idx {
+			e.Rule++
+		}
+	}
+	for _, x := range g.Rules {
+		x.Body.Walk(shift)
+	}
+	r.Body.Walk(shift)
+	g.Rules = append(g.Rules, nil)
+	copy(g.Rules[idx+1:], g.Rules[idx:])
+	g.Rules[idx] = r
+}
+
+// AddWarned makes a well-formed grammar earn warnings without -strict: rules nobody uses
+// (anywhere between the others, alone, as a cycle, or recursive) and references to rules
+// nobody defines. The generator still has to write a valid parser. It returns what it added.
+func AddWarned(t *rapid.T, g *Grammar) []string {
+	var kinds []string
+	term := func() *Expr { return &Expr{K: KLit, Runes: []rune{rapid.SampledFrom(baseAlpha).Draw(t, "wt")}} }
+	n := rapid.IntRange(1, 3).Draw(t, "nwarned")
+	for k := 0; k < n; k++ {
+		idx := rapid.IntRange(1, len(g.Rules)).Draw(t, "widx")
+		any := func() *Expr { return Ref(rapid.IntRange(0, len(g.Rules)-1).Draw(t, "wref")) }
+		kind := rapid.SampledFrom([]string{"unused", "unused", "unused-cycle", "unused-recursive", "undefined", "undefined-in-unused"}).Draw(t, "wkind")
+		switch kind {
+		case "unused":
+			var body *Expr
+			switch rapid.IntRange(0, 3).Draw(t, "wbody") {
+			case 0:
+				body = term()
+			case 1:
+				body = Seq(term(), Un(KOpt, any()))
+			case 2:
+				body = &Expr{K: KAlt, Kids: []*Expr{Seq(term(), Un(KCap, term()), &Expr{K: KAct}), Seq(Un(KNot, term()), any()), Un(KStar, term())}}
+			default:
+				body = Seq(Un(KPlus, &Expr{K: KAlt, Kids: []*Expr{term(), Seq(term(), term())}}), &Expr{K: KAct})
+			}
+			InsertRule(g, idx, &Rule{Name: fmt.Sprintf("Unused%dx%d", len(g.Rules), k), Body: body})
+		case "unused-cycle":
+			a, b := fmt.Sprintf("UnusedA%dx%d", len(g.Rules), k), fmt.Sprintf("UnusedB%dx%d", len(g.Rules), k)
+			InsertRule(g, idx, &Rule{Name: a, Body: Seq(term(), &Expr{K: KRef, Name: b})})
+			idx2 := rapid.IntRange(1, len(g.Rules)).Draw(t, "widx2")
+			InsertRule(g, idx2, &Rule{Name: b, Body: &Expr{K: KAlt, Kids: []*Expr{Seq(term(), &Expr{K: KRef, Name: a}), term()}}})
+		case "unused-recursive":
+			name := fmt.Sprintf("UnusedR%dx%d", len(g.Rules), k)
+			InsertRule(g, idx, &Rule{Name: name, Body: Seq(term(), Un(KOpt, &Expr{K: KRef, Name: name}))})
+		case "undefined":
+			r := g.Rules[rapid.IntRange(0, len(g.Rules)-1).Draw(t, "wur")]
+			r.Body = Seq(r.Body, Un(KOpt, &Expr{K: KRef, Name: fmt.Sprintf("Undefined%dx%d", len(g.Rules), k)}))
+		default:
+			InsertRule(g, idx, &Rule{Name: fmt.Sprintf("Unused%dx%d", len(g.Rules), k), Body: Seq(term(), &Expr{K: KRef, Name: fmt.Sprintf("Undefined%dx%d", len(g.Rules), k)})})
+		}
+		kinds = append(kinds, kind)
+	}
+	return kinds
 }
